@@ -210,8 +210,54 @@ STRIP = ('ImplicitCastExpr', 'ParenExpr', 'ExprWithCleanups', 'MaterializeTempor
          'ConstantExpr', 'FullExpr', 'SubstNonTypeTemplateParmExpr')
 
 
+_strip_cache = {}
+_OPS = ['<<=', '>>=', '<=>', '->*', '<<', '>>', '<=', '>=', '==', '!=', '->', '()', '[]', '&&', '||', '++', '--', '+=',
+        '-=', '*=', '/=', '%=', '&=', '|=', '^=', '<', '>', '=', '!', '+', '-', '*', '/', '%', '&', '|', '^', '~', ',']
+
+
+def strip_targs(name):
+    """qualified name without template argument lists: a::B<int, C<x>>::f -> a::B::f (operators kept)"""
+    r = _strip_cache.get(name)
+    if r is not None:
+        return r
+    if '<' not in name:
+        _strip_cache[name] = name
+        return name
+    out = []
+    depth = 0
+    i = 0
+    n = len(name)
+    while i < n:
+        c = name[i]
+        if depth == 0 and name.startswith('operator', i) and (i == 0 or not (name[i - 1].isalnum() or name[i - 1] == '_')):
+            # copy the operator token verbatim: operator<, operator<<, operator<=, operator->, operator() ...
+            j = i + 8
+            rest = name[j:]
+            tok = None
+            for op in _OPS:
+                if rest.startswith(op):
+                    tok = name[i:j + len(op)]
+                    j += len(op)
+                    break
+            if tok is None:
+                tok = name[i:j]
+            out.append(tok)
+            i = j
+            continue
+        if c == '<':
+            depth += 1
+        elif c == '>':
+            depth -= 1
+        elif depth == 0:
+            out.append(c)
+        i += 1
+    r = ''.join(out)
+    _strip_cache[name] = r
+    return r
+
+
 class Function:
-    __slots__ = ('raw', 'S', 'key', 'qn', 'n', 'file', 'line', 'eline', 'ret', 'cls', 'clsq', 'cta', 'fta', 'ov',
+    __slots__ = ('raw', 'S', 'key', 'qn', 'qnf', 'n', 'file', 'line', 'eline', 'ret', 'cls', 'clsq', 'cta', 'fta', 'ov',
                  'parent', 'unit', 'cfgid', '_nodes', '_cfg', '_locals', '_parents', 'flags')
 
     def __init__(self, raw, S, unit, cfgid):
@@ -220,7 +266,8 @@ class Function:
         self.unit = unit
         self.cfgid = cfgid
         self.key = S[raw['key']]
-        self.qn = S[raw['qn']]
+        self.qnf = S[raw['qn']]
+        self.qn = strip_targs(self.qnf)
         self.n = S[raw['n']]
         self.file = S[raw['file']]
         self.line = raw['line']
@@ -263,6 +310,12 @@ class Function:
                         n[k] = S[n[k]]
                 if 'cta' in n:
                     n['cta'] = [S[x] for x in n['cta']]
+                if 'cn' in n:
+                    n['cnf'] = n['cn']
+                    n['cn'] = strip_targs(n['cn'])
+                if 'dn' in n:
+                    n['dnf'] = n['dn']
+                    n['dn'] = strip_targs(n['dn'])
             self._nodes = ns
         return self._nodes
 
